@@ -80,6 +80,24 @@ def _indexer(piece, vec_index):
     return [None if l.bracket else vec_index[l.name] for l in piece.leaves]
 
 
+def _edims(piece, sizes):
+    """(leaf-wise shape, elementary shape) of the bracketed sub-tensor of a piece: bracketed leaves of one
+    parenthesised group under a bracket are one (row-major flattened) dimension for the elementary operation."""
+    leafshape, eshape = [], []
+    last = object()
+    for l in piece.leaves:
+        if not l.bracket:
+            continue
+        n = sizes[l.name]
+        leafshape.append(n)
+        if l.eg is not None and l.eg == last:
+            eshape[-1] *= n
+        else:
+            eshape.append(n)
+        last = l.eg if l.eg is not None else object()
+    return tuple(leafshape), tuple(eshape)
+
+
 def loop_apply(in_flats, in_pieces, out_pieces, elem, sizes, out_flats=None, out_dtype=None):
     """Run the for-loops. elem(*subtensors) -> tuple with one value per output piece.
     Returns the list of flat output arrays (allocated on first result unless given)."""
@@ -91,14 +109,19 @@ def loop_apply(in_flats, in_pieces, out_pieces, elem, sizes, out_flats=None, out
     vec_index = {n: i for i, n in enumerate(vec)}
     in_idx = [_indexer(p, vec_index) for p in in_pieces]
     out_idx = [_indexer(p, vec_index) for p in out_pieces]
+    in_ed = [_edims(p, sizes) for p in in_pieces]
+    out_ed = [_edims(p, sizes) for p in out_pieces]
     if out_flats is None:
         out_flats = [None] * len(out_pieces)
     ranges = [range(sizes[n]) for n in vec]
     for env in itertools.product(*ranges):
         subs = []
-        for flat, p, ix in zip(in_flats, in_pieces, in_idx):
+        for flat, p, ix, (lshape, eshape) in zip(in_flats, in_pieces, in_idx, in_ed):
             sel = tuple(slice(None) if i is None else env[i] for i in ix)
-            subs.append(flat[p.offsets[sel]])
+            sub = flat[p.offsets[sel]]
+            if lshape != eshape:
+                sub = np.asarray(sub).reshape(eshape)
+            subs.append(sub)
         res = elem(*subs)
         if not isinstance(res, tuple):
             res = (res,)
@@ -111,6 +134,9 @@ def loop_apply(in_flats, in_pieces, out_pieces, elem, sizes, out_flats=None, out
                 rt = np.result_type(out_flats[k].dtype, np.asarray(r).dtype)
                 if rt != out_flats[k].dtype and out_dtype is None:
                     out_flats[k] = out_flats[k].astype(rt)
+            lshape, eshape = out_ed[k]
+            if lshape != eshape and np.ndim(r) == len(eshape):
+                r = np.asarray(r).reshape(lshape)
             out_flats[k][p.offsets[sel]] = r
     return out_flats
 
@@ -343,6 +369,9 @@ def ref_update_contributions(xin, tensors, sizes):
             sel = tuple(slice(None) if i is None else env[i] for i in ix)
             subs.append((f, p.offsets[sel]))
         toffs = subs[0][1]  # offsets of the target's bracketed sub-tensor
+        lshape_, eshape_ = _edims(tp, sizes)
+        if lshape_ != eshape_:
+            toffs = np.asarray(toffs).reshape(eshape_)
         coords = _coord_vector([f[o] for f, o in subs[1:-1]])
         uf, uo = subs[-1]
         uval = uf[uo]
@@ -355,7 +384,7 @@ def ref_update_contributions(xin, tensors, sizes):
 def ref_preserve(op, xin, xout, tensors, sizes, shift=None):
     pin = _single(xin[0], sizes)
     out = _single(xout[0], sizes)
-    nb = len([l for l in pin.leaves if l.bracket])
+    nb = len(_edims(pin, sizes)[1])  # number of dimensions of the elementary sub-tensor
     if op == "flip":
         elem = _flip
     elif op == "roll":
